@@ -23,7 +23,8 @@ theorem normalize_idx (E : Env α) (i : Int) (n : Nat) :
     callHelper Generated.listHelpers E "_normalize_slice_or_index" [.int i, .int n]
       = .ok [.bool false, .int (if i < 0 then i + n else i)] := by
   by_cases h : i < 0 <;>
-  simp [callHelper, Generated.listHelpers, lookupFn, exec, eval, bindArgs, truthy, setVar, evalAll, intOp, h]
+  simp [callHelper, Generated.listHelpers, lookupFn, exec, eval, bindArgs, truthy, setVar, evalAll, intOp, h] <;>
+  try omega
 
 theorem normalize_slice (E : Env α) (s : Slice) (n : Nat) :
     callHelper Generated.listHelpers E "_normalize_slice_or_index" [.slice s, .int n]
@@ -135,9 +136,9 @@ theorem imul_length_ge (l : List α) (n : Int) (h : ¬ n < 1) : l.length ≤ (Py
 local notation "runTLM" => runTraitListM Generated.listHelpers Generated.traitListProg
 
 macro "pyl_exec" "[" ts:Lean.Parser.Tactic.simpLemma,* "]" : tactic =>
-  `(tactic| simp [runTraitListM, Generated.traitListProg, lookupFn, exec, eval, bindArgs,
+  `(tactic| (simp [runTraitListM, Generated.traitListProg, lookupFn, exec, eval, bindArgs,
       truthy, setVar, setVars, evalAll, intOp, builtinSup, summarize, summaryOfStep, TraitList.step, toNIdx,
-      normalize_idx, normalize_slice, removed_items_slice, removed_items_idx, valOfNIdx, $ts,*])
+      normalize_idx, normalize_slice, removed_items_slice, removed_items_idx, valOfNIdx, $ts,*] <;> try omega))
 
 theorem tl_clear (E : Env α) (l : List α) : runTLM E "clear" [] l = summaryOfStep l (TraitList.step E l .clear) := by
   cases l <;> pyl_exec []
